@@ -330,6 +330,7 @@ func init() {
 	}
 	vfNatives["vfRegister"] = func(fr *frame, a []value) value { return true }
 	vfNatives["vfSymbolic"] = func(fr *frame, a []value) value { return !fr.i.p.concrete }
+	vfNatives["vfInterpreted"] = func(fr *frame, a []value) value { return true }
 	vfNatives["vfIsSym"] = func(fr *frame, a []value) value {
 		if it, ok := a[0].(iface); ok {
 			return isSym(it.v)
